@@ -91,14 +91,16 @@ fn check_diags(rep: &mut CaseReport, tree: &ParseTree, diags: &DiagnosticSet, wh
     if ok.is_err() { let m = LAST_PANIC.with(|p| p.borrow().clone()); rep.fail(format!("{what}-diagnostic-display-panics"), m); }
 }
 
-/// signature of a panic: source file (no line number) + message with data stripped
+/// signature of a panic: innermost function of the code under test (no line number) + message with data stripped
 fn panic_site() -> (String, String) {
     let m = LAST_PANIC.with(|p| p.borrow().clone());
+    let func = crate::run::LAST_PANIC_FN.with(|p| p.borrow().clone());
     let (msg, loc) = m.rsplit_once(" @ ").unwrap_or((m.as_str(), ""));
     let file = loc.rsplit_once(':').map(|(f, _)| f).unwrap_or(loc);
     let file = file.rsplit_once("/src/").map(|(_, f)| f).unwrap_or(file);
-    let short: String = msg.split(['`', '\'', '"', ':']).next().unwrap_or("").chars().take(50).collect();
-    (format!("{}:{}", file, normalize_sig(short.trim())), m.chars().take(500).collect())
+    let short: String = msg.split(['`', '\'', '"', ':']).next().unwrap_or("").chars().take(40).collect();
+    let site = if func.is_empty() { file.to_string() } else { func };
+    (format!("{}:{}", site, normalize_sig(short.trim())), format!("{} [in {}]", m.chars().take(400).collect::<String>(), file))
 }
 
 /// Oracle over a set of in-memory files; `expected` is the text the tree must carry (None = only robustness)
